@@ -33,7 +33,8 @@ abbrev Name := Bytes
 inductive Stmt where
   /-- a call of interest; `qual` = receiver / argument text where it matters -/
   | call (name qual : Name)
-  | ret
+  /-- `return …`; `ok` = the last result is the literal `nil` (or there is none): the success return -/
+  | ret (ok : Bool)
   /-- `return f(…)` with `f` of interest -/
   | tail (name : Name)
   | goto (label : Name)
@@ -42,12 +43,16 @@ inductive Stmt where
   | ite (c : Nat) (t e : Stmt)
   /-- inlined callee of the same package: its returns leave only the callee -/
   | scope (s : Stmt)
+  /-- the idiom `if err := f(…); err != nil { t } else { e }` with `f` inlined as `s`: a failure return of
+      `s` goes to `t`, a success return (or falling off its end) to `e`; if `s` ends in a tail call the
+      outcome is unknown and atom `c` decides -/
+  | try (c : Nat) (s t e : Stmt)
   deriving DecidableEq, Repr
 
 /-- how a path ends -/
 inductive End where
   | fall
-  | ret
+  | ret (ok : Bool)
   | tail (name : Name)
   | goto (label : Name)
   deriving DecidableEq, Repr
@@ -59,16 +64,26 @@ structure Out where
 
 def closeScope (r : Out) : Out :=
   match r.fin with
-  | .ret => ⟨r.trace, .fall⟩
+  | .ret _ => ⟨r.trace, .fall⟩
   | .tail n => ⟨r.trace ++ [(n, [])], .fall⟩
   | _ => r
 
+/-- continue after an inlined callee with the branch its way of returning selects -/
+def afterTry (r : Out) (choice : Bool) (t e : Out) : Out :=
+  match r.fin with
+  | .ret false => ⟨r.trace ++ t.trace, t.fin⟩
+  | .ret true => ⟨r.trace ++ e.trace, e.fin⟩
+  | .fall => ⟨r.trace ++ e.trace, e.fin⟩
+  | .tail n => if choice then ⟨r.trace ++ (n, []) :: t.trace, t.fin⟩ else ⟨r.trace ++ (n, []) :: e.trace, e.fin⟩
+  | .goto _ => r
+
 def exec (ρ : Nat → Bool) : Stmt → Out
   | .call n q => ⟨[(n, q)], .fall⟩
-  | .ret => ⟨[], .ret⟩
+  | .ret ok => ⟨[], .ret ok⟩
   | .tail n => ⟨[], .tail n⟩
   | .goto l => ⟨[], .goto l⟩
   | .skip => ⟨[], .fall⟩
+  | .try c s t e => afterTry (exec ρ s) (ρ c) (exec ρ t) (exec ρ e)
   | .seq a b =>
     let ra := exec ρ a
     if ra.fin == .fall then
@@ -81,10 +96,13 @@ def exec (ρ : Nat → Bool) : Stmt → Out
 /-- the outcomes of all paths -/
 def outs : Stmt → List Out
   | .call n q => [⟨[(n, q)], .fall⟩]
-  | .ret => [⟨[], .ret⟩]
+  | .ret ok => [⟨[], .ret ok⟩]
   | .tail n => [⟨[], .tail n⟩]
   | .goto l => [⟨[], .goto l⟩]
   | .skip => [⟨[], .fall⟩]
+  | .try _ s t e =>
+    (outs s).flatMap fun r => (outs t).flatMap fun rt => (outs e).flatMap fun re =>
+      [afterTry r true rt re, afterTry r false rt re]
   | .seq a b =>
     (outs a).flatMap fun ra =>
       if ra.fin == .fall then (outs b).map fun rb => ⟨ra.trace ++ rb.trace, rb.fin⟩ else [ra]
@@ -112,20 +130,21 @@ def entryOk (o : Out) : Bool :=
     match o.fin with
     | .tail n =>
       n == nm "runServer" && keep (nm "abortStartup" :: prologue) o == prologue
-    | .ret =>
+    | .ret _ =>
       (names o).getLast? == some (nm "abortStartup") && (names o).count (nm "abortStartup") == 1 &&
       (keep prologue o).head? == some (nm "startObservability")
     | _ => false
   else
     -- nothing has been started yet: the path may only give up
-    o.fin == .ret && keep (nm "abortStartup" :: nm "runServer" :: prologue) o == []
+    (o.fin == .ret true || o.fin == .ret false) &&
+    keep (nm "abortStartup" :: nm "runServer" :: prologue) o == []
 
 /-- before the event loop -/
 def preOk (o : Out) : Bool :=
   let core := [nm "Listen", nm "abortStartup", nm "go", nm "recv", nm "executeReadyHooks", nm "executeShutdownHooks",
                nm "executeStopHooks", nm "shutdownObservability"]
   match o.fin with
-  | .ret => keep core o == [nm "Listen", nm "abortStartup"]
+  | .ret _ => keep core o == [nm "Listen", nm "abortStartup"]
   | .fall => keep core o == [nm "Listen", nm "go", nm "recv", nm "executeReadyHooks"]
   | _ => false
 
@@ -135,7 +154,7 @@ def qualOf (n : Name) (o : Out) : Option Name := (o.trace.find? fun p => p.1 == 
 def goOk (o : Out) : Bool :=
   let core := [nm "flushStartupLogs", nm "close", nm "startFunc", nm "Close"]
   keep core o == core && qualOf (nm "startFunc") o == qualOf (nm "Close") o &&
-  (o.fin == .fall || o.fin == .ret)
+  (o.fin == .fall || o.fin == .ret true || o.fin == .ret false)
 
 def loopCore : List Name :=
   [nm "abortStartup", nm "Reload", nm "executeShutdownHooks", nm "Shutdown", nm "shutdownObservability",
@@ -144,7 +163,7 @@ def loopCore : List Name :=
 /-- an arm of the event loop, given the label after the loop -/
 def armOk (label : Name) (o : Out) : Bool :=
   match o.fin with
-  | .ret => keep loopCore o == [nm "abortStartup"]
+  | .ret _ => keep loopCore o == [nm "abortStartup"]
   | .fall => keep loopCore o == [nm "Reload"] || keep loopCore o == []
   | .goto l => l == label && keep loopCore o == []
   | _ => false
@@ -156,7 +175,7 @@ def shutdownOrder : List Name :=
 
 /-- after the label -/
 def afterOk (label : Name) (o : Out) : Bool :=
-  o.trace.head? == some (nm "label", label) && o.fin == .ret &&
+  o.trace.head? == some (nm "label", label) && (o.fin == .ret true || o.fin == .ret false) &&
   keep (nm "abortStartup" :: nm "Reload" :: nm "executeReadyHooks" :: nm "Listen" :: shutdownOrder) o == shutdownOrder
 
 /-- the skeletons of one source tree -/
